@@ -358,8 +358,7 @@ def load_patches(
     patch_ids = parallel.COMM.bcast(patch_ids, root=0)
 
     # instantiate patches, which triggers computing the patch meta-data
-    path_template = str(cache_directory / PATCH_NAME_TEMPLATE)
-    patch_paths = map(path_template.format, patch_ids)
+    patch_paths = [str(get_patch_path_from_id(cache_directory, pid)) for pid in patch_ids]
 
     if patch_centers is not None:
         if isinstance(patch_centers, Catalog):
